@@ -6,6 +6,8 @@
 #   randomness      random is reseeded
 #   pid             os.getpid returns a seed-derived number
 #   host / user     socket.gethostname, platform.node, os.uname().nodename, getpass.getuser, os.getlogin
+#   scheduling      os.cpu_count / multiprocessing.cpu_count are seed-drawn; concurrent.futures.as_completed and
+#                   Pool.imap_unordered hand their results back in a seed-drawn order
 import os
 
 _seed = os.environ.get('DETCOMPILE_SEED')
@@ -105,3 +107,42 @@ if _seed is not None:
         return os.uname_result((u.sysname, _host, u.release, u.version, u.machine))
     os.uname = _uname
     _random.seed(_rng.getrandbits(64))
+
+    # scheduling: results of a pool come back in a seed-drawn order, and the machine has a seed-drawn number of CPUs
+    _cpus = _rng.choice([1, 2, 3, 4, 8, 16, 64])
+    os.cpu_count = lambda: _cpus
+    try:
+        os.sched_getaffinity  # noqa
+        _real_aff = os.sched_getaffinity
+        os.sched_getaffinity = lambda pid=0: set(range(_cpus))
+    except AttributeError:
+        pass
+    try:
+        import concurrent.futures as _cf
+        _real_as_completed = _cf.as_completed
+
+        def _as_completed(fs, timeout=None):
+            done = list(_real_as_completed(list(fs), timeout=timeout))
+            _rng.shuffle(done)
+            return iter(done)
+        _cf.as_completed = _as_completed
+        _real_wait = _cf.wait
+
+        def _wait(fs, timeout=None, return_when=_cf.ALL_COMPLETED):
+            r = _real_wait(fs, timeout=timeout, return_when=_cf.ALL_COMPLETED)
+            return r
+        _cf.wait = _wait
+    except Exception:
+        pass
+    try:
+        import multiprocessing as _mp
+        import multiprocessing.pool as _mpp
+
+        def _imap_unordered(self, func, iterable, chunksize=1):
+            res = list(self.imap(func, iterable, chunksize))
+            _rng.shuffle(res)
+            return iter(res)
+        _mpp.Pool.imap_unordered = _imap_unordered
+        _mp.cpu_count = lambda: _cpus
+    except Exception:
+        pass
